@@ -91,6 +91,17 @@ def edits(root, sm):
             root.insert(list(root).index(s) + 1, mk("sectiontype", name=case_variant(s.get("name"))))
         add("R1:duplicate-sectiontype", 0, f)
 
+        # ... also when the repeated declaration is a DERIVED type (another concrete type as base)
+        for j, st2 in enumerate(sts):
+            if j != i and not (st.get("name") or "").lower() == (st2.get("name") or "").lower():
+                def f(root, i=i, j=j):
+                    all_ = root.findall("sectiontype")
+                    later = all_[max(i, j)]
+                    root.insert(list(root).index(later) + 1,
+                                mk("sectiontype", name=case_variant(all_[i].get("name")), extends=all_[j].get("name")))
+                add("R1:duplicate-name-on-a-derived-type", 0, f)
+                break
+
         def f2(root, i=i):
             s = root.findall("sectiontype")[i]
             root.insert(list(root).index(s) + 1, mk("abstracttype", name=s.get("name")))
@@ -269,6 +280,13 @@ def edits(root, sm):
                     d.text = "1"
                     e.append(d)
                 add("R8:keyed-default-on-plain-multikey", depth, f)
+
+                def f(root, at=at):
+                    e = at(root)
+                    d = mk("default", key="")
+                    d.text = "1"
+                    e.append(d)
+                add("R8:default-with-empty-key-attribute-on-plain-multikey", depth, f)
             if it.tag == "multikey":
                 def f(root, at=at):
                     at(root).set("default", "1")
@@ -368,6 +386,21 @@ def edits(root, sm):
             add("R9:attribute-not-identifier", depth, f)
 
             def f(root, at=at):
+                e = at(root)
+                e.set("attribute", (e.get("attribute") or "attr") + "\n")
+            add("R9:attribute-with-trailing-line-feed", depth, f)
+            if name not in ("*", "+") and it.tag in ("key", "multikey"):
+                def f(root, at=at):
+                    e = at(root)
+                    e.set("name", e.get("name") + "\n")
+                add("R9:key-name-with-trailing-line-feed", depth, f)
+            if it.get("handler"):
+                def f(root, at=at):
+                    e = at(root)
+                    e.set("handler", e.get("handler") + "\n")
+                add("R9:handler-with-trailing-line-feed", depth, f)
+
+            def f(root, at=at):
                 at(root).set("attribute", "a-b")
             add("R9:attribute-with-hyphen", depth, f)
 
@@ -456,6 +489,19 @@ def edits(root, sm):
         def f(root, i=i):
             root.findall("sectiontype")[i].set("name", "1 bad")
         add("R9:malformed-type-name", 1, f)
+
+        # a name that is well-formed but for one trailing line feed (written &#10; in the document)
+        def f(root, i=i):
+            t = root.findall("sectiontype")[i]
+            t.set("name", t.get("name") + "\n")
+        add("R9:type-name-with-trailing-line-feed", 1, f)
+
+        for attr_ in ("extends", "implements"):
+            if st.get(attr_):
+                def f(root, i=i, attr_=attr_):
+                    t = root.findall("sectiontype")[i]
+                    t.set(attr_, t.get(attr_) + "\n")
+                add("R9:%s-with-trailing-line-feed" % attr_, 1, f)
 
         def f(root, i=i):
             root.findall("sectiontype")[i].attrib.pop("name", None)
